@@ -22,7 +22,10 @@ RULE = (
     "FIFO and shuffled orders with withheld acks (the SignalStage message can be overtaken). (2) interleaving engine, "
     "pairs SignalStage x RunTask(returns suspend), SignalStage x StartStage(w), SignalStage x SignalStage. (1b) a gate that "
     "needs TWO persistent signals, sent before every pair of steps, with distinct and with identical name + payload: every "
-    "signal resumes the task exactly once; and SignalStage x StartStage pairs on that gate with one signal already buffered. (3) crash "
+    "signal resumes the task exactly once; and SignalStage x StartStage pairs on that gate with one signal already buffered; a retry "
+    "loop upstream of the gate and operator restarts of the upstream stage after the signal was buffered (the re-arm must keep "
+    "the buffer), SignalStage x JumpToStage pairs; and ONE signal for the two-signal gate whose SignalStage is handled by a "
+    "second worker too (lock lapsed at every statement boundary of the first handling): one resume, not two. (3) crash "
     "engine: every commit snapshot of the suspend/resume run resumed as a fresh worker. Oracles from the ledger of the "
     "suspending task and the audit log: a persistent signal's payload is seen by the task exactly once, the stage "
     "completes, the buffer is empty; without a signal the stage stays SUSPENDED durably; never more than one resume per "
@@ -31,7 +34,7 @@ RULE = (
     "status when the signal was handled, persistent?, order class) / trace hash."
 )
 ASSUMPTIONS = ["SQLite backend", "one signal per suspension (two signals for one suspension leave the second buffered by design)"]
-MIN_OBS = {"signals_handled_before_suspension": {"quick": 300, "thorough": 4000}, "pair_schedules_with_switch": {"quick": 500, "thorough": 8000}}
+MIN_OBS = {"signals_handled_before_suspension": {"quick": 300, "thorough": 4000}, "pair_schedules_with_switch": {"quick": 500, "thorough": 8000}, "second_worker_got_the_signal": {"quick": 40, "thorough": 40}}
 TIMEOUT = {"quick": 800, "thorough": 3400}
 
 
@@ -67,6 +70,8 @@ def gen_cases(tier: str, seed: int) -> list[dict]:
     for moment in ("before_start", "while_running", "after_suspend"):
         cases.append({"kind": "crash", "moment": moment, "seed": seed})
     cases.append({"kind": "prebuffered", "seed": seed, "sample": 120 if tier == "quick" else 2500})
+    for moment in ("before_start", "while_running", "after_suspend"):
+        cases.append({"kind": "relapse", "moment": moment, "seed": seed})
     for same in (False, True):
         for order in ("fifo", "random", "random_noack"):
             for rep in range(1 if tier == "quick" else 5):
@@ -212,6 +217,92 @@ def _multi(case: dict) -> dict:
             ok = run.state["wf"] == "SUCCEEDED" and st_w["status"] == "SUCCEEDED" and len(recs) == 3 and not buf
             if not ok:
                 violations.append(viol("C18/persistent-signal-lost:two-signals-one-gate" + (":identical-payloads" if case["same"] else ""), f"two persistent signals {d1} / {d2} sent before steps {s1} / {s2}: task executed {len(recs)} times (expected 1 + 2 resumes), stage {st_w['status']}, workflow {run.state['wf']}, buffer {buf}"))
+    return {"violations": _uniq(violations), "obs": dict(obs), "keys": sorted(keys)}
+
+
+def _relapse(case: dict) -> dict:
+    """ONE persistent signal for a gate that needs two; its SignalStage is being handled by worker W0 when the row's
+    lock lapses and a second worker polls and handles the same message - at EVERY statement boundary of W0's
+    handling, with the signal sent before the gate started, while its task runs, or after it suspended.  The one
+    signal is consumed once: the gate resumes once and waits (SUSPENDED) for the second signal, which never comes."""
+    from ..world import World
+
+    spec = {"name": "suspend2", "confluent": True, "stages": [specs.st("a"), specs.st("w", ["a"], [{"kind": "suspend", "waits": 2, "out": ["w_o"]}]), specs.st("z", ["w"])]}
+    w = World()
+    cut = None
+    try:
+        w.submit(spec)
+        for step in range(200):
+            rows = w.rows()
+            st = w.snapshot_state()["stages"]["w"]["status"]
+            moment_now = {"before_start": step == 1, "while_running": st == "RUNNING", "after_suspend": st == "SUSPENDED" and not rows}[case["moment"]]
+            if moment_now:
+                w.signal("w", "approve", {"id": "only"}, True)
+                sig = [r for r in w.rows() if r["type"] == "SignalStage"]
+                path = os.path.join(il.env.scratch_dir(), f"cut-{os.getpid()}-{random.randrange(1 << 40)}.db")
+                w.store._get_connection().commit()
+                w.copy_db(path)
+                cut = (path, sig[0]["id"])
+                break
+            if not rows:
+                break
+            w.deliver(w.eligible(rows)[0]["id"])
+    finally:
+        w.close()
+    obs: Counter = Counter()
+    keys: set = set()
+    violations = []
+    if cut is None:
+        return {"violations": [], "obs": {"cut_point_not_reached": 1}, "keys": []}
+    db, row = cut
+    FAR_ = "2999-01-01T00:00:00+00:00"
+    try:
+        na = il.solo_length(db, row)
+        for s1 in range(0, na + 1):
+            polled: dict = {}
+
+            def mk(world, _polled=polled):
+                def body() -> None:
+                    c = world.queue._get_connection()
+                    try:
+                        c.execute("UPDATE queue_messages SET locked_until = NULL WHERE id = ?", (row,))
+                        c.execute("UPDATE queue_messages SET locked_until = ? WHERE id != ? AND locked_until IS NULL", (FAR_, row))
+                        c.commit()
+                        msg = world.queue.poll_one()
+                        _polled["got"] = msg is not None
+                        if msg is not None:
+                            il.worker_body(world, msg)()
+                    finally:
+                        try:
+                            c.execute("UPDATE queue_messages SET locked_until = NULL WHERE locked_until = ?", (FAR_,))
+                            c.commit()
+                        except Exception:
+                            c.rollback()
+
+                return body
+
+            run, info = il.run_pair(db, [row], il.Segments([("W0", s1), ("W9", 10**6), ("W0", 10**6)]), extra_bodies={"W9": mk})
+            obs["evaluations"] += 1
+            if run is None:
+                obs["scheduler_watchdog"] += 1
+                continue
+            obs["signal_lock_lapsed_during_handling"] += 1
+            if polled.get("got"):
+                obs["second_worker_got_the_signal"] += 1
+            keys.add(f"sigrelapse:{case['moment']}:{s1}:{polled.get('got')}")
+            recs = [r for r in run.ledger if r["ref"] == "w"]
+            st_w = run.state["stages"]["w"]
+            buf = st_w["context"].get("_buffered_signals") or []
+            if not run.quiescent:
+                violations.append(viol("C18/not-quiescent", "queue not drained"))
+                continue
+            resumes = [r for r in recs if r.get("signal_name")]
+            if len(resumes) + len(buf) > 1 or st_w["status"] == "SUCCEEDED":
+                violations.append(viol("C18/one-signal-consumed-twice:same-message-handled-by-two-workers", f"one persistent signal sent {case['moment']}, its SignalStage handled by W0 and - lock lapsed after {s1} of {na} statements - by a second worker: the gate was resumed {len(resumes)} times (+ {len(buf)} still buffered) by one signal, stage {st_w['status']}"))
+            elif len(resumes) + len(buf) < 1:
+                violations.append(viol("C18/persistent-signal-lost:same-message-handled-by-two-workers", f"signal sent {case['moment']}: gate resumed {len(resumes)} times, stage {st_w['status']}, buffer {buf}"))
+    finally:
+        os.unlink(db)
     return {"violations": _uniq(violations), "obs": dict(obs), "keys": sorted(keys)}
 
 
@@ -413,6 +504,8 @@ def run_case(case: dict) -> dict:
         return _multi(case)
     if case.get("kind") == "prebuffered":
         return _prebuffered(case)
+    if case.get("kind") == "relapse":
+        return _relapse(case)
     if case["kind"] == "seq":
         return _seq(case)
     if case["kind"] == "pair":
